@@ -18,10 +18,10 @@ EXPLANATION = (
     "FmtStr; no line is wider than `columns`, every line but the last is exactly `columns` wide, no line is empty; with the padding "
     "removed the lines, concatenated, are exactly the characters of the value in order with their formatting; the only additions "
     "are single spaces at the end of a line that is one column short, where the next character is double-width, formatted like "
-    "that character; columns < 2 raises ValueError."
+    "that character; columns < 2 raises ValueError; two iterators over values that share runs, consumed alternately (the generator "
+    "body is then evaluated lazily, one yield at a time), give what each gives alone."
 )
-NOT_DECIDED = ("the compiled extension's real width table (the stand-in agrees with it on the alphabet used); longer texts, larger limits; "
-               "lazy consumption: the generator is evaluated to its end in one go, so two iterators consumed alternately are not modelled.")
+NOT_DECIDED = "the compiled extension's real width table (the stand-in agrees with it on the alphabet used); longer texts, larger limits."
 
 A1, A2 = {"fg": 31}, {"bg": 44, "bold": True}
 WIDE, COMB = "Ｅ", "́"
@@ -31,6 +31,7 @@ GROUPS = {
     "S2-nothing-lost-nothing-reordered": "characters and formatting of the lines over the catalogue",
     "S3-padding-only-before-a-straddling-wide-character": "padding spaces over the catalogue",
     "S4-narrow-limit-rejected": "columns < 2",
+    "S5-iterators-do-not-disturb-each-other": "two iterators over values sharing runs, consumed alternately",
 }
 
 
@@ -63,13 +64,26 @@ def check(src, rep):
                 layouts.append([(text[:1], A1), ("", {}), (text[1:], A2)] if len(text) > 1 and text[1] != COMB else [(text, A1), ("", A2)])
             for runs in layouts:
                 for columns in (2, 3, 4, 5):
-                    jobs.append((text, runs, columns))
+                    jobs.append((text, runs, columns, 1))
+            if 1 <= len(text) <= (3 if rep.tier == "thorough" else 2) and not text.startswith(COMB):
+                # the same run object several times in a row: what `f * k` and `f + f` build
+                for k in (2, 3, 5):
+                    for columns in (2, 3, 4):
+                        jobs.append((text, [(text, A1)], columns, k))
 
     def one(job):
-        text, runs, columns = job
-        cl = cells(runs)
+        text, runs, columns, times = job
+        cl = cells(runs) * times
         v = mk(it, *runs)
         desc = "%r as runs %s .width_aware_splitlines(%d)" % (text, [t for t, _ in runs], columns)
+        if times > 1:
+            m = it.callm(v, "__mul__", times)
+            if m[0] != "ok" or not isinstance(m[1], Obj):
+                return ("error", "building (%r) * %d is outside the evaluated subset: %s" % (text, times, m), "")
+            v = m[1]
+            if cells(runs_of(v)) != cl:
+                return None          # repetition itself is C06's business
+            desc = "(%r * %d, the same run object %d times) .width_aware_splitlines(%d)" % (text, times, times, columns)
         r = it.callm(v, "width_aware_splitlines", columns)
         if r[0] == "opaque":
             return ("error", "%s outside the evaluated subset: %s" % (desc, r[1]), "")
@@ -121,6 +135,43 @@ def check(src, rep):
             rep.errors.append(res[1])
             break
         bad.setdefault(res[0], []).append(res[1:])
+    # two iterators over values that share runs, consumed alternately: each gives what it gives when consumed alone
+    def lines_of(ch):
+        out = []
+        while True:
+            r = ch.next()
+            if r[0] == "stop":
+                return out, r[1]
+            out.append("".join(c for c, _ in cells(runs_of(r[1]))))
+
+    inter = [([("abcdefgh", A1), ("ij", A2)], 3, 4), ([("a" + WIDE + "bc" + WIDE, A1)], 2, 3), ([("abc", A1), ("", A2), ("defg", A2)], 2, 5)]
+    for runs, c1, c2 in inter:
+        alone = []
+        for c in (c1, c2):
+            r = it.callm(mk(it, *runs), "width_aware_splitlines", c)
+            alone.append(["".join(ch for ch, _ in cells(runs_of(x))) for x in (it.folder.v_iter(r[1]) if not isinstance(r[1], list) else r[1])]
+                         if r[0] == "ok" else r)
+        v = mk(it, *runs)
+        h = it.callm(v, "__add__", "")          # another value built from the same runs
+        for label, second in (("the same value", v), ("a value built from it with +", h[1] if h[0] == "ok" else v)):
+            g1, g2 = it.lazy(v, "width_aware_splitlines", c1), it.lazy(second, "width_aware_splitlines", c2)
+            o1, o2, d1, d2 = [], [], False, False
+            while not (d1 and d2):
+                for g, o, which in ((g1, o1, 1), (g2, o2, 2)):
+                    if (which == 1 and d1) or (which == 2 and d2):
+                        continue
+                    r = g.next()
+                    if r[0] == "value":
+                        o.append("".join(c for c, _ in cells(runs_of(r[1]))))
+                    elif which == 1:
+                        d1 = True
+                    else:
+                        d2 = True
+            rep.case(True)
+            if [o1, o2] != alone:
+                bad.setdefault("S5-iterators-do-not-disturb-each-other", []).append(
+                    ("%r wrapped at %d and (%s) at %d, the two iterators consumed alternately" % ("".join(t for t, _ in runs), c1, label, c2),
+                     "they give %s and %s; consumed one after the other they give %s and %s" % (o1, o2, alone[0], alone[1])))
     for cols in (1, 0, -1):
         v = mk(it, ("ab", A1))
         r = it.callm(v, "width_aware_splitlines", cols)
